@@ -447,32 +447,56 @@ def gen_primitive(rng, kind, names, obb_units, bbox):
     raise ValueError(kind)
 
 
+def build_filter(rng, fid, attrs, prims, cif=None, allow_href=True, used=None):
+    """attrs: list of (name, value) among filterUnits / primitiveUnits / x / y / width / height, as the DOCUMENT specifies them.
+    With probability 1/3 the filter is split over an xlink:href chain of 1-2 template filters: every attribute sits either on the
+    referencing filter or on a referenced one (SVG: attributes not given on the element are taken from the referenced filter, and so are
+    the primitives when the element has none).  color-interpolation-filters is a PROPERTY of the primitives, so it stays on their holder."""
+    holders = [fid]
+    if allow_href and rng.below(3) == 0:
+        holders += ['%st%d' % (fid, k) for k in range(1, 2 + rng.below(2))]
+        if used is not None:
+            used.append('href-template-%d' % (len(holders) - 1))
+    where = {h: [] for h in holders}
+    for a in attrs:
+        where[rng.choice(holders)].append(a)
+    ph = rng.choice(holders)
+    out = []
+    for i in range(len(holders) - 1, -1, -1):      # referenced filters first
+        h = holders[i]
+        a = "".join(' %s="%s"' % kv for kv in where[h])
+        if i + 1 < len(holders):
+            a += ' xlink:href="#%s"' % holders[i + 1]
+        if h == ph and cif:
+            a += ' color-interpolation-filters="%s"' % cif
+        out.append('<filter id="%s"%s>%s</filter>' % (h, a, prims if h == ph else ''))
+    return "".join(out)
+
+
 def gen_filter(rng, fid, bbox, kinds=None, force_kind=None):
-    """-> (xml, user-space region (x0,y0,x1,y1), kinds used)"""
+    """-> (xml, user-space region (x0,y0,x1,y1) AS THE DOCUMENT SPECIFIES IT, kinds used)"""
     bw, bh = bbox[2] - bbox[0], bbox[3] - bbox[1]
-    attrs = ''
+    attrs = []
     fu = rng.choice(['objectBoundingBox', 'userSpaceOnUse', None])
     if fu:
-        attrs += ' filterUnits="%s"' % fu
+        attrs.append(('filterUnits', fu))
     if fu == 'userSpaceOnUse':
         rx, ry = bbox[0] + dy(rng, -0.4, 0.3, 16) * bw, bbox[1] + dy(rng, -0.4, 0.3, 16) * bh
         rw, rh = dy(rng, 0.5, 1.8, 16) * bw, dy(rng, 0.5, 1.8, 16) * bh
         rx, ry, rw, rh = [round(v * 4) / 4 for v in (rx, ry, rw, rh)]
         rw, rh = max(rw, 2.0), max(rh, 2.0)
-        attrs += ' x="%s" y="%s" width="%s" height="%s"' % (num(rx), num(ry), num(rw), num(rh))
+        attrs += [('x', num(rx)), ('y', num(ry)), ('width', num(rw)), ('height', num(rh))]
         region = (rx, ry, rx + rw, ry + rh)
     else:
         fr = [-0.1, -0.1, 1.2, 1.2]
         if rng.below(3):
             fr = [dy(rng, -0.4, 0.3, 16), dy(rng, -0.4, 0.3, 16), dy(rng, 0.5, 1.8, 16), dy(rng, 0.5, 1.8, 16)]
-            attrs += ' x="%s" y="%s" width="%s" height="%s"' % tuple(num(v) for v in fr)
+            attrs += [(n, num(v)) for n, v in zip(('x', 'y', 'width', 'height'), fr)]
         region = (bbox[0] + fr[0] * bw, bbox[1] + fr[1] * bh, bbox[0] + (fr[0] + fr[2]) * bw, bbox[1] + (fr[1] + fr[3]) * bh)
     pu = rng.choice(['userSpaceOnUse', 'userSpaceOnUse', 'objectBoundingBox', None])
     if pu:
-        attrs += ' primitiveUnits="%s"' % pu
+        attrs.append(('primitiveUnits', pu))
     cif = rng.choice(['sRGB', 'linearRGB', None])
-    if cif:
-        attrs += ' color-interpolation-filters="%s"' % cif
     names = []
     used = []
     n = 1 + rng.below(5)
@@ -483,9 +507,10 @@ def gen_filter(rng, fid, bbox, kinds=None, force_kind=None):
             kind = 'feFlood'
         used.append(kind)
         prims += gen_primitive(rng, kind, names, pu == 'objectBoundingBox', bbox)
-    return '<filter id="%s"%s>%s</filter>' % (fid, attrs, prims), region, used
+    return build_filter(rng, fid, attrs, prims, cif, used=used), region, used
 
 
+CIF_LEVELS = ['primitive', 'filter', 'filter', 'g', 'defs', 'root', 'root-style', 'css-svg', 'css-star']
 ID_PRIMS = ['offset0', 'blur0', 'merge1', 'matrix', 'transfer', 'over-nothing', 'saturate1', 'shadow', 'shadow-implicit', 'mixed-cs', 'mixed-cs2']
 
 
@@ -534,8 +559,17 @@ def gen_identity_filter(rng, fid, bbox, cut):
         else:
             prims += ('<feOffset dx="0" dy="0" result="keep%d"/><feFlood flood-opacity="0" result="none%d"/>'
                       '<feComposite in="keep%d" in2="none%d" operator="over"/>' % (j, j, j, j))
-    return ('<filter id="%s" x="%s" y="%s" width="%s" height="%s" color-interpolation-filters="sRGB">%s</filter>'
-            % (fid, num(fr[0]), num(fr[1]), num(fr[2]), num(fr[3]), prims)), region, used
+    # "when interpolating in sRGB", however that is specified: on every primitive, on the filter, on an ancestor of the filter (g, defs,
+    # root svg as attribute or style) or by a CSS rule
+    level = rng.choice(CIF_LEVELS)
+    used.append('sRGB@' + level)
+    if level == 'primitive':
+        import re as _re
+        prims = _re.sub(r"<(fe(?!MergeNode|Func[RGBA])[A-Za-z]+)(?![^>]*color-interpolation-filters)", r'<\1 color-interpolation-filters="sRGB"', prims)
+    xml = build_filter(rng, fid, [(n, num(v)) for n, v in zip(('x', 'y', 'width', 'height'), fr)], prims, 'sRGB' if level == 'filter' else None, used=used)
+    if level == 'g':
+        xml = '<g color-interpolation-filters="sRGB">%s</g>' % xml
+    return xml, region, used, level
 
 
 def hull_of(regions, ts, eps=2e-3):
@@ -548,10 +582,17 @@ def hull_of(regions, ts, eps=2e-3):
     return (math.floor(min(xs) - eps), math.floor(min(ys) - eps), math.ceil(max(xs) + eps), math.ceil(max(ys) + eps))
 
 
+CSS_IDENT_FNS = ['saturate(1)', 'brightness(100%)', 'brightness(1)', 'contrast(1)', 'opacity(1)', 'hue-rotate(0deg)', 'grayscale(0)', 'sepia(0)', 'invert(0)',
+                 'blur(0)', 'opacity(100%)', 'contrast(100%)']
+
+
 def gen_sys_case(rng, mode, force_kind=None):
-    """mode: 'random' | 'identity' | 'list' | 'css'"""
+    """mode: 'random' | 'identity' | 'identity-cut' | 'identity-css' | 'list' | 'css'"""
     defs = []
+    empty_g = mode == 'random' and force_kind is None and rng.below(14) == 0
     content, bbox = gen_content(rng, defs)
+    if empty_g:
+        content = '<g/>' + content      # an empty group has no geometry: it must not move the object bounding box
     gts = (1.0, 0.0, 0.0, 1.0, 0.0, 0.0)
     gattr = ''
     if rng.below(3) == 0:
@@ -576,11 +617,38 @@ def gen_sys_case(rng, mode, force_kind=None):
     total = mat_mul(root, gts)
     regions = []
     used = []
+    root_attr, defs_attr, css, wrap = '', '', '', None
     if mode in ('identity', 'identity-cut'):
-        fx, reg, used = gen_identity_filter(rng, 'f0', bbox, mode == 'identity-cut')
+        fx, reg, used, level = gen_identity_filter(rng, 'f0', bbox, mode == 'identity-cut')
         defs.append(fx)
         regions.append(reg)
         fattr = 'url(#f0)'
+        if level == 'defs':
+            defs_attr = ' color-interpolation-filters="sRGB"'
+        elif level == 'root':
+            root_attr = ' color-interpolation-filters="sRGB"'
+        elif level == 'root-style':
+            root_attr = ' style="color-interpolation-filters:sRGB"'
+        elif level == 'css-svg':
+            css = '<style>svg{color-interpolation-filters:sRGB}</style>'
+        elif level == 'css-star':
+            css = '<style>*{color-interpolation-filters:sRGB}</style>'
+    elif mode == 'identity-css':
+        # CSS filter functions always work in sRGB, whatever color-interpolation-filters says on the element or above it
+        pick = [rng.choice(CSS_IDENT_FNS) for _ in range(1 + rng.below(2))]
+        cif = rng.choice(['linearRGB', 'linearRGB', 'sRGB', None])
+        lvl = rng.choice(['element', 'parent', 'root', 'css-svg', 'css-star'])
+        used = [p.split('(')[0] + '=identity' for p in pick] + ['%s@%s' % (cif, lvl)]
+        fattr = " ".join(pick)
+        if cif:
+            if lvl == 'element':
+                gattr += ' color-interpolation-filters="%s"' % cif
+            elif lvl == 'parent':
+                wrap = '<g color-interpolation-filters="%s">%%s</g>' % cif
+            elif lvl == 'root':
+                root_attr = ' color-interpolation-filters="%s"' % cif
+            else:
+                css = '<style>%s{color-interpolation-filters:%s}</style>' % ('svg' if lvl == 'css-svg' else '*', cif)
     elif mode == 'css':
         fns = ['blur(%spx)' % num(rng.choice([0, 1, 2.5])), 'brightness(%s)' % num(rng.choice([0.5, 1, 1.5])), 'contrast(%s)' % num(rng.choice([0.5, 1, 2])),
                'grayscale(%s)' % num(rng.choice([0, 0.5, 1])), 'hue-rotate(%ddeg)' % rng.choice([0, 90, 200]), 'invert(%s)' % num(rng.choice([0, 0.5, 1])),
@@ -597,17 +665,28 @@ def gen_sys_case(rng, mode, force_kind=None):
             regions.append(reg)
             used += u
         fattr = " ".join('url(#f%d)' % j for j in range(nf))
-    head = '<svg %s width="160" height="160"><defs>%s</defs>' % (NS, "".join(defs))
-    doc = '%s<g filter="%s"%s>%s</g></svg>' % (head, fattr, gattr, content)
-    plain = '%s<g%s>%s</g></svg>' % (head, gattr, content)
-    if len(regions) > 1:     # a filter list works on the union (in the group's user space) of the regions of its filters
-        regions = [(min(r[0] for r in regions), min(r[1] for r in regions), max(r[2] for r in regions), max(r[3] for r in regions))]
+    if empty_g:
+        used.append('empty-g-child')
+    head = '<svg %s width="160" height="160"%s>%s<defs%s>%s</defs>' % (NS, root_attr, css, defs_attr, "".join(defs))
+    body_f = '<g filter="%s"%s>%s</g>' % (fattr, gattr, content)
+    body_p = '<g%s>%s</g>' % (gattr, content)
+    if wrap:
+        body_f, body_p = wrap % body_f, wrap % body_p
+    doc = head + body_f + '</svg>'
+    plain = head + body_p + '</svg>'
+    box_union = None
+    if len(regions) > 1:
+        # a filter list: every filter works on the previous result and crops to its own region, so the final result lies inside the
+        # LAST filter's region; resvg keeps one layer for the union of the regions (known class filter-list-later-region-smaller)
+        union = (min(r[0] for r in regions), min(r[1] for r in regions), max(r[2] for r in regions), max(r[3] for r in regions))
+        box_union = hull_of([union], total)
+        regions = [regions[-1]]
     box = hull_of(regions, total) if regions else None
-    return dict(mode=mode, doc=doc, plain=plain, ts=root, size=size, box=box, used=used, scale=s, angle=ang)
+    return dict(mode=mode, doc=doc, plain=plain, ts=root, size=size, box=box, box_union=box_union, used=used, scale=s, angle=ang, empty_g=empty_g)
 
 
 def is_ident(c):
-    return c['mode'] in ('identity', 'identity-cut')
+    return c['mode'] in ('identity', 'identity-cut', 'identity-css')
 
 
 def sys_payload(c, with_plain):
@@ -670,7 +749,14 @@ def classify_sys(ctx, c, r, stats, with_plain):
             okx = ob[2] <= (right if ib[0] < 0 else right - 1)
             oky = ob[3] <= (bottom if ib[1] < 0 else bottom - 1)
             known = (ib[0] < 0 or ib[1] < 0) and okx and oky and ob[0] >= ib[0] and ob[1] >= ib[1]
-        bad.append(('containment-known' if known else 'containment', text))
+        kind = 'containment-known' if known else 'containment'
+        ob = r['outside_bbox']
+        if not known and c.get('box_union') is not None:
+            u = c['box_union']
+            # KNOWN class filter-list-later-region-smaller: a list of filters, every offending pixel inside the union of the regions
+            if u[0] <= ob[0] and u[1] <= ob[1] and ob[2] < u[2] + 1 and ob[3] < u[3] + 1:
+                kind = 'containment-known-list'
+        bad.append((kind, text))
     if with_plain and r.get('cmp'):
         m = r['cmp']
         stats.setdefault('ident_smooth_max', {})
@@ -736,6 +822,7 @@ def run(ctx):
     cases += [gen_sys_case(rng, 'random') for _ in range(n_rand)]
     cases += [gen_sys_case(rng, 'identity') for _ in range(n_ident)]
     cases += [gen_sys_case(rng, 'identity-cut') for _ in range(n_ident // 3)]
+    cases += [gen_sys_case(rng, 'identity-css') for _ in range(n_ident // 3)]
     cases += [gen_sys_case(rng, 'list') for _ in range(n_list)]
     cases += [gen_sys_case(rng, 'css') for _ in range(n_css)]
     pool = cf.ThreadPoolExecutor(max_workers=2)
@@ -919,7 +1006,7 @@ def run(ctx):
                                    "(Some {| ix := %d; iy := %d; iw := %d; ih := %d |}))"
                                    % (tuple(qstr(v) for v in t['bbox']) + tuple(t['max']) + tuple(t['ibbox'])))
                 layer_src.append((c, t))
-                if c['box'] is not None:
+                if c['box'] is not None and c.get('box_union') is None:
                     ib = t['ibbox']
                     if not (c['box'][0] <= ib[0] and c['box'][1] <= ib[1] and ib[0] + ib[2] <= c['box'][2] and ib[1] + ib[3] <= c['box'][3]):
                         sys_bad.append(('containment', "the layer of the filtered group %s is not inside the pixel hull %s of the filter region computed from the document"
@@ -1025,10 +1112,16 @@ def run(ctx):
     by_kind = {}
     for kind, text, c in sys_bad:
         by_kind.setdefault(kind, []).append((text, c))
-    ctx.cov['known_class_hits'] = {'layer-origin-negative': len(by_kind.get('containment-known', []))}
+    ctx.cov['known_class_hits'] = {'layer-origin-negative': len(by_kind.get('containment-known', [])),
+                                   'filter-list-later-region-smaller': len(by_kind.get('containment-known-list', []))}
     for kind, lst in by_kind.items():
         lst.sort(key=lambda tc: len(tc[1]['doc']))
         for text, c in lst[:2]:
+            if kind == 'containment-known-list':
+                cls = 'filter-list-later-region-smaller'
+                ctx.known_or_violation(cls, text, dict(op='c16-sys', doc=c['doc'], plain='-', ts=list(c['ts']), size=c['size'], box=list(c['box']),
+                                                       clause='containment', known_class=cls))
+                continue
             if kind == 'containment-known':
                 ctx.known_or_violation('layer-origin-negative', text, dict(op='c16-sys', doc=c['doc'], plain='-', ts=list(c['ts']), size=c['size'],
                                                                          box=list(c['box']), clause='containment', known_class='layer-origin-negative'))
@@ -1044,6 +1137,14 @@ def run(ctx):
             ctx.known_or_violation('layer-origin-negative', "witness corpus/witness/C16-layer-origin-negative.svg: %d pixels painted below the filter region" % wr['outside'],
                                    dict(op='c16-sys', doc='@' + wit, plain='-', ts=[1, 0, 0, 1, 0, 0], size=40, box=[-6, -10, 15, 11], clause='containment',
                                         known_class='layer-origin-negative'))
+    # fixed in /repo ab43936: the witness must stay inside the region the document specifies (48,48)-(72,72)
+    wit2 = os.path.join(vlib.VERIF, 'corpus', 'witness', 'C16-empty-group-bbox.svg')
+    if os.path.exists(wit2):
+        w2 = jload(ctx.rvh_batch(binp, 'c16-sys', ["-\t@%s\t-\t1,0,0,1,0,0\t100\t100\t48,48,72,72\t-" % wit2])[0])
+        ctx.cov['fixed_witness_empty_group_bbox'] = dict(outside=w2.get('outside'))
+        if w2.get('outside', 1) != 0:
+            ctx.violation("regression of fixed finding ab43936: an empty <g/> child moves the objectBoundingBox filter region (%s pixels outside (48,48)-(72,72))"
+                          % w2.get('outside'), dict(op='c16-sys', doc='@' + wit2, plain='-', ts=[1, 0, 0, 1, 0, 0], size=100, box=[48, 48, 72, 72], clause='containment'))
     ctx.cov['system_cases'] = dict(generated=len(cases), corpus=len(corpus), **stats)
     ctx.cov['primitive_kinds'] = kinds_hist
     for c in cases[:2] + [c for c in cases if is_ident(c)][:1]:
